@@ -44,7 +44,7 @@ claim("C05",
 
 
 claim("C06",
-      "Render.tla states the documented placement rules (first three integer-valued core components, flattening on '.', label.N expansions, PEP 440 slots, lower-cased local segment, unset variables contribute nothing); TLC grows every rule-conforming schema within the bounds, proves on the specification that each rendering is well-formed (grammar modules) and prints the expected strings; the harness builds each (schema, assignment) as a real Zerv object and compares SemVer::from / PEP440::from and the stdin pipeline in both formats; random schemas with Unicode text are recomputed by TLC. The smart-tier table is checked through C05's vcs space (schema equality for every dirty/distance/pre/post state).",
+      "Render.tla states the documented placement rules (first three integer-valued core components, flattening on '.', label.N expansions, PEP 440 slots, lower-cased local segment, unset variables contribute nothing); TLC grows every rule-conforming schema within the bounds, proves on the specification that each rendering is well-formed (grammar modules) and prints the expected strings; the harness builds each (schema, assignment) as a real Zerv object and compares SemVer::from / PEP440::from and the stdin pipeline in both formats; random schemas with Unicode text are recomputed by TLC. The smart-tier table of the standard and calver presets (and their -context / -no-context variants) is checked by MC_Zerv's tier mode composed with Render: for every dirty / distance / pre-release / post state the printed string is predicted.",
       "Exhaustive for <= 2(3)/2/1 components per section over 9/7/6-symbol component alphabets x 3 assignments; random up to 4 per section beyond.",
       GEN, "DESIGN.md 5/C06")
 
